@@ -426,6 +426,7 @@ func TestC09(t *testing.T) {
 		gen.Class(fmt.Sprintf("msg:auth>%d", bucket(authLen)))
 		gen.Sample("message", map[string]any{"authLen": authLen, "chainLen": chainLen, "extraLen": extraLen, "len": len(want)})
 	})
+	c09Histories(t)
 }
 
 // setEmpties makes every zero-length byte string of the message nil (toNil) or empty-but-non-nil.
